@@ -21,6 +21,7 @@
  Rn arg roles     : a variable named like a parameter of the callee is handed to that parameter (no exchanged roles).
  R8 inputs        : spectrum map layout (shared with C15-R1); slots needed = ceil(spacing/slot width) x ceil(bandwidth/bit rate).
  R9 scratch faithful: the scratch map is built with the range, grid and guard band of the real map.
+ R10 reverse / grid  : find_reversed_path over every OMS (shared with C11); n <-> frequency grid (shared with C15).
 """
 import ast
 
@@ -804,6 +805,17 @@ def r9_scratch_faithful(ctx):
     ctx.need('R9.scratch-faithful', 1)
 
 
+
+def r10_reverse_and_grid(ctx):
+    """R10: both directions of a service are booked: find_reversed_path goes through the reverse OMS of EVERY crossed OMS (shared
+    with C11); slot numbers and frequencies convert back and forth on one grid, truncating towards the band (shared with C15)"""
+    from .c11 import r5_helpers as _r11
+    from .c15 import r3_grid as _r15
+    from .common import proxy
+    _r11(proxy(ctx, 'R10'))
+    _r15(proxy(ctx, 'R10'))
+
+
 from ..memo import rule_for as _memo_rule
 
 RULES_MEMO = ('Rm.memo', _memo_rule('C14', 'spectrum availability computed for another state would be reused'))
@@ -813,4 +825,4 @@ from ..presence import rule_for as _presence_rule
 
 RULES_PRESENCE = ('Rp.presence', _presence_rule('C14', 'a user-fixed slot N = 0 (the grid anchor) would be treated as not given and placed elsewhere'))
 
-RULES = [('R7.window', r7_window), ('R6.merge-probe', r6_merge_and_probe), ('R1.fresh', r1_fresh), ('R2.commit', r2_commit), ('R4.slots', r4_slots), ('R5.first-fit', r5_first_fit), RULES_MEMO, RULES_PRESENCE, ('Re.for-each', re_foreach), ('Ra.alias-mutation', ra_alias), ('Rn.arg-roles', rn_arg_roles), ('R8.inputs', r8_inputs), ('R9.scratch-faithful', r9_scratch_faithful)]
+RULES = [('R7.window', r7_window), ('R6.merge-probe', r6_merge_and_probe), ('R1.fresh', r1_fresh), ('R2.commit', r2_commit), ('R4.slots', r4_slots), ('R5.first-fit', r5_first_fit), RULES_MEMO, RULES_PRESENCE, ('Re.for-each', re_foreach), ('Ra.alias-mutation', ra_alias), ('Rn.arg-roles', rn_arg_roles), ('R8.inputs', r8_inputs), ('R9.scratch-faithful', r9_scratch_faithful), ('R10.reverse-and-grid', r10_reverse_and_grid)]
